@@ -244,6 +244,17 @@ func (c *Compiler) expandModule(module *parse.Module) {
 	sort.Strings(subnames)
 	for _, sn := range subnames {
 		sm := subs[sn]
+		// The data definitions of a submodule that the module includes
+		// are children of the module as well and were expanded with it;
+		// what is left to do here are the submodule's groupings.  A
+		// 'uses' at the top level of the submodule must not be expanded
+		// a second time: the nodes of an augment inside it would be
+		// handed its 'when' twice.
+		if nod.LookupChild(parse.NodeInclude, sn) != nil {
+			for _, u := range sm.ChildrenByType(parse.NodeUses) {
+				sm.ReplaceChild(u)
+			}
+		}
 		if err := c.expandGroupings(nod, sm, schema.Current); err != nil {
 			c.error(sm, err)
 		}
